@@ -1,39 +1,142 @@
 /-
   C17 — The profiler reports exact unique/missing counts and key suitability.
 
-  Model: `SSJ.Profiler.profileColumn` (lean/SSJ/Model/Profiler.lean) on one column = list of cells, all missing
-  values (None / NaN) being the one cell `Cell.missing`.  Tie to the real code: `profiler` correspondence suite
-  (counts, the formatted "n (p%)" strings, comments, incl. tables beyond 20 000 rows) + the profiler oracle.
+  STATEMENT.  profile_table_for_join returns one row per profiled attribute, indexed by attribute name, whose
+  'Unique values' and 'Missing values' entries contain the exact number (and percentage to two decimals) of distinct
+  values (a missing value counting as one value) and of missing values in that column.  The comment recommends the
+  attribute as a key exactly when all values are distinct and none is missing, and warns about ignored rows exactly
+  when at least one value is missing.
+
+  SPECIFICATION (`SSJ/Spec/ProfilerSpec.lean`, independent of the model): `distinctValues col` = cardinality of the
+  set of Python values of the present cells + 1 if a cell is missing; `missingValues col`; `AllDistinct col`;
+  `percentString k n` = `str(round(float(k) / float(n) * 100, 2))`; `statString k n` = `'<k> (<percent>%)'`.
+  "Same value" is Python's `==` as pandas' `unique()` applies it: numbers by exact value across int / float / bool
+  (`1`, `1.0`, `True` are one value; `2**53 + 1` and `float(2**53)` are two), `'1'` and `1` differ, every
+  None / NaN / pd.NA / pd.NaT is the one missing value, `-0.0` is `0.0`, ±inf and opaque objects equal only
+  themselves (scope: opaque objects are identified by the harness tag `type:repr`; objects that compare equal to a
+  number or to a differently printed object — `Decimal(1)`, `Fraction(1)`, `(1, 2.0)` — are outside the model).
+
+  MODEL.  `SSJ.Profiler.profileColumn col` (`SSJ/Model/Profiler.lean`) = (unique stat, missing stat, comment) of one
+  column = list of cells; `uniqueCount` follows the code (`nunique(dropna=True)` as a table of pairwise-`==` distinct
+  cells, `Cell.pyEq`, plus one if `missing_values > 0`); `percent` evaluates the float expression in `PyV`.
+  `SSJ.Profiler.profileTable` = the whole call.
+
+  HYPOTHESES.  The two entry theorems need a table with at least one row (the real code raises ZeroDivisionError on an
+  empty table: C15) and fewer than 2^53 rows (row counts are then exact doubles).  Nothing else: any cells, any mix.
+
+  TRUSTED.  `reprHundredths c` is CPython's `repr` of the double nearest to `c/100` for `0 ≤ c ≤ 10000` (header of the
+  spec file; exhaustively checked on CPython).  `percent_two_decimals` proves that the profiler's percentage is
+  always such a double and that `c/100` is the exact percentage rounded to two decimals.
+
+  NOT COVERED.  The returned frame's index (`set_index('Attribute')`) is represented by the first component of each
+  row.  Tie to the real code: the `profiler` correspondence suite and the profiler oracle.
 -/
-import SSJ.Proofs.Profiler
+import SSJ.Proofs.ProfilerExact
 
 namespace SSJ.Props.C17
-open SSJ SSJ.Profiler
+open SSJ SSJ.Profiler SSJ.ProfilerSpec
 
-/-- the unique count is the number of distinct cells (a missing value counting as one value):
-    it equals the number of rows exactly when all values are distinct -/
-theorem unique_count_exact (col : List Cell) : uniqueCount col = col.length ↔ col.Nodup :=
-  uniqueCount_eq_length_iff col
+/-! ### the two statistics entries (main clause) -/
+
+/-- the 'Unique values' entry is `'<d> (<p>%)'` with `d` the exact number of distinct values of the column (a missing
+    value counting as one value) and `p` Python's two-decimal percentage of `d` in the number of rows -/
+theorem unique_entry_exact (col : List Cell) (h0 : col ≠ []) (hn : col.length < 2 ^ 53) :
+    (profileColumn col).1 = statString (distinctValues col) col.length :=
+  profileColumn_fst col h0 hn
+
+/-- the 'Missing values' entry is `'<m> (<p>%)'` with `m` the exact number of missing values of the column -/
+theorem missing_entry_exact (col : List Cell) (h0 : col ≠ []) (hn : col.length < 2 ^ 53) :
+    (profileColumn col).2.1 = statString (missingValues col) col.length :=
+  profileColumn_snd col h0 hn
+
+/-- the counts the model computes ARE the specification's numbers (any column, also the empty one) -/
+theorem unique_count_exact (col : List Cell) : uniqueCount col = distinctValues col := uniqueCount_eq col
+
+theorem missing_count_exact (col : List Cell) : missingCount col = missingValues col := missingCount_eq col
+
+/-- the equality the model's table of unique values is keyed by (pairwise Python `==`) identifies exactly the cells
+    that hold the same value -/
+theorem cell_equality (a b : Cell) : a.pyEq b = true ↔ valueOf a = valueOf b := pyEq_iff a b
+
+/-- "a missing value counts as one value": the distinct values are the distinct elements of the column read as
+    optional values, `none` being the one missing value -/
+theorem distinct_values_missing_as_one (col : List Cell) :
+    distinctValues col = (col.map valueOf).toFinset.card :=
+  distinctValues_eq_card col
+
+/-- as many distinct values as rows exactly when no two cells hold the same value -/
+theorem distinct_eq_rows_iff (col : List Cell) : distinctValues col = col.length ↔ AllDistinct col :=
+  distinctValues_eq_length_iff col
 
 theorem counts_in_range (col : List Cell) (h : col ≠ []) :
-    missingCount col ≤ col.length ∧ 1 ≤ uniqueCount col ∧ uniqueCount col ≤ col.length :=
+    missingValues col ≤ col.length ∧ 1 ≤ distinctValues col ∧ distinctValues col ≤ col.length :=
   profileColumn_counts col h
 
-theorem missing_count_pos_iff (col : List Cell) : 0 < missingCount col ↔ ∃ c ∈ col, c.isMissing = true :=
-  missingCount_pos_iff col
+theorem missing_count_pos_iff (col : List Cell) : 0 < missingValues col ↔ Cell.missing ∈ col :=
+  missingValues_pos_iff col
+
+/-! ### the percentage -/
+
+/-- for a count `k` of a table with `n` rows (`0 ≤ k ≤ n`, `1 ≤ n < 2^53`) the float expression
+    `round(float(k) / float(n) * 100, 2)` evaluates to a double without any Python error, and the formatted
+    statistic is the specification's string: the model's `"?%"` fallback is never taken -/
+theorem percent_never_fallback (k n : Nat) (hk : k ≤ n) (h1 : 1 ≤ n) (hn : n < 2 ^ 53) :
+    percent k n = .float (percentDouble k n) ∧ formatStatistic k (percent k n) = statString k n :=
+  ⟨percent_eq k n hk h1 hn, formatStatistic_percent k k n hk h1 hn⟩
+
+/-- "percentage to two decimals": the percentage is the double nearest to a two-decimal number `c/100`
+    (`0 ≤ c ≤ 10000`), it is printed as that decimal, and `c/100` is the exact percentage `100·k/n` rounded to two
+    decimals (up to the `< 10⁻¹³` error of the two binary roundings in `float(k) / float(n) * 100`) -/
+theorem percent_two_decimals (k n : Nat) (hk : k ≤ n) (h1 : 1 ≤ n) (hn : n < 2 ^ 53) :
+    ∃ c : Nat, c ≤ 10000 ∧ percentDouble k n = F64.rn ((c : Rat) / 100) ∧
+      percentString k n = reprHundredths c ∧
+      |(c : Rat) / 100 - 100 * (k : Rat) / n| ≤ 1 / 200 + 1 / 10 ^ 13 := by
+  obtain ⟨c0, c1⟩ := pctHundredths_bounds hk h1
+  obtain ⟨c, hc⟩ := Int.eq_ofNat_of_zero_le c0
+  refine ⟨c, by omega, ?_, ?_, ?_⟩
+  · rw [percentDouble_eq_two_decimals, hc]; rfl
+  · rw [percentString_eq hk h1, hc]; rfl
+  · have := pctHundredths_close hk h1 hn
+    rw [hc, Int.cast_natCast] at this
+    exact this
+
+/-- whenever the exact percentage, in hundredths (`10000·k/n`), is not within `10⁻¹⁰` of a rounding tie `c ± 1/2`,
+    the printed percentage is the correctly rounded two-decimal number `c/100` -/
+theorem percent_correctly_rounded (k n c : Nat) (hk : k ≤ n) (h1 : 1 ≤ n) (hn : n < 2 ^ 53)
+    (hlo : (c : Rat) - 1 / 2 + 1 / 10 ^ 10 ≤ 10000 * (k : Rat) / n)
+    (hhi : 10000 * (k : Rat) / n ≤ (c : Rat) + 1 / 2 - 1 / 10 ^ 10) :
+    percentString k n = reprHundredths c := by
+  rw [percentString_eq hk h1, pctHundredths_of_near c hk h1 hn hlo hhi]; rfl
+
+/-- every row counted: "100.0"; none: "0.0" -/
+theorem percent_all (n : Nat) (h1 : 1 ≤ n) : percentString n n = "100.0" := by
+  rw [percentString_eq le_rfl h1, pctHundredths_self h1]; decide
+
+theorem percent_none (n : Nat) (h1 : 1 ≤ n) : percentString 0 n = "0.0" := by
+  rw [percentString_eq (Nat.zero_le n) h1, pctHundredths_zero]; decide
+
+/-! ### the comment -/
 
 /-- the comment recommends the attribute as a key exactly when all values are distinct and none is missing —
     for tables of ANY size (the pinned code decided on percentages rounded to two decimals) -/
 theorem key_recommended_iff (col : List Cell) :
     (profileColumn col).2.2 = "This attribute can be used as a key attribute." ↔
-      col.Nodup ∧ ∀ c ∈ col, c.isMissing = false :=
+      AllDistinct col ∧ Cell.missing ∉ col :=
   profileColumn_key_iff col
 
 /-- the comment warns about ignored rows exactly when at least one value is missing -/
 theorem warns_iff (col : List Cell) :
-    "Joining on this attribute will ignore ".toList <+: (profileColumn col).2.2.toList ↔
-      ∃ c ∈ col, c.isMissing = true :=
+    "Joining on this attribute will ignore ".toList <+: (profileColumn col).2.2.toList ↔ Cell.missing ∈ col :=
   profileColumn_ignore_prefix_iff col
+
+/-- … and the warning then quotes the 'Missing values' entry -/
+theorem warning_text (col : List Cell) (h0 : col ≠ []) (hn : col.length < 2 ^ 53) (hm : Cell.missing ∈ col) :
+    (profileColumn col).2.2 =
+      s!"Joining on this attribute will ignore {statString (missingValues col) col.length} rows." := by
+  rw [← missing_entry_exact col h0 hn]
+  exact (profileColumn_ignore_iff col).mpr hm
+
+/-! ### the table -/
 
 /-- one row per profiled attribute, in request order (all columns when `profile_attrs` is None), each row being the
     profile of that column -/
@@ -62,9 +165,56 @@ theorem one_row_per_attribute (f : Frame) (attrs : Option (List String)) (rows :
 theorem rejects_non_dataframe (attrs : Option (List String)) : profileTable none attrs = .error .typeErr := by
   simp [profileTable, validateInputTable, bind, Except.bind]
 
-/-! non-vacuity: three rows, one duplicate ⇒ no key recommendation; the witness of the repaired defect is the same
-    statement at 20 001 rows, covered by the theorem above for every length -/
+/-! ### non-vacuity -/
+
+/-- a mixed object column: `1`, `1.0`, `True` are one value, `'1'` another, the two missing cells (None, NaN) a third -/
+def mixed : List Cell := [.int 1, .flt 1, .other "bool:True", .str "1", .missing, .missing]
+
+example : distinctValues mixed = 3 ∧ missingValues mixed = 2 := by decide
+example : Cell.pyEq (.int 1) (.flt 1) = true ∧ Cell.pyEq (.flt 1) (.other "bool:True") = true ∧
+    Cell.pyEq (.int 0) (.other "bool:False") = true ∧ Cell.pyEq (.str "1") (.int 1) = false ∧
+    Cell.pyEq (.int 9007199254740993) (.flt 9007199254740992) = false := by decide
+example : ¬ AllDistinct mixed := by decide
+example : AllDistinct [.int 1, .str "1", .flt 2, .other "bool:False", .missing] := by decide
+
+/-- the percentages of the task's examples -/
+example : percentString 1 3 = "33.33" := by
+  rw [percent_correctly_rounded 1 3 3333 (by norm_num) (by norm_num) (by norm_num) (by norm_num) (by norm_num)]; decide
+example : percentString 2 3 = "66.67" := by
+  rw [percent_correctly_rounded 2 3 6667 (by norm_num) (by norm_num) (by norm_num) (by norm_num) (by norm_num)]; decide
+example : percentString 1 7 = "14.29" := by
+  rw [percent_correctly_rounded 1 7 1429 (by norm_num) (by norm_num) (by norm_num) (by norm_num) (by norm_num)]; decide
+example : percentString 1 10000 = "0.01" := by
+  rw [percent_correctly_rounded 1 10000 1 (by norm_num) (by norm_num) (by norm_num) (by norm_num) (by norm_num)]; decide
+example : percentString 1 40003 = "0.0" := by
+  rw [percent_correctly_rounded 1 40003 0 (by norm_num) (by norm_num) (by norm_num) (by norm_num) (by norm_num)]; decide
+
+/-- the whole profile of the mixed column -/
+example : profileColumn mixed =
+    ("3 (50.0%)", "2 (33.33%)", "Joining on this attribute will ignore 2 (33.33%) rows.") := by
+  have hu : distinctValues mixed = 3 := by decide
+  have hm : missingValues mixed = 2 := by decide
+  have hl : mixed.length = 6 := rfl
+  have h0 : mixed ≠ [] := by decide
+  have hn : mixed.length < 2 ^ 53 := by rw [hl]; norm_num
+  have e1 : percentString 3 6 = "50.0" := by
+    rw [percent_correctly_rounded 3 6 5000 (by norm_num) (by norm_num) (by norm_num) (by norm_num) (by norm_num)]; decide
+  have e2 : percentString 2 6 = "33.33" := by
+    rw [percent_correctly_rounded 2 6 3333 (by norm_num) (by norm_num) (by norm_num) (by norm_num) (by norm_num)]; decide
+  have s1 : statString 3 6 = "3 (50.0%)" := by unfold statString; rw [e1]; decide
+  have s2 : statString 2 6 = "2 (33.33%)" := by unfold statString; rw [e2]; decide
+  have a := unique_entry_exact mixed h0 hn
+  have b := missing_entry_exact mixed h0 hn
+  have c := warning_text mixed h0 hn (by decide)
+  rw [hu, hl, s1] at a
+  rw [hm, hl, s2] at b
+  rw [hm, hl, s2] at c
+  exact Prod.ext a (Prod.ext b c)
+
+/-- three rows, one duplicate ⇒ no key recommendation; the witness of the repaired defect is the same statement at
+    20 001 rows, covered by `key_recommended_iff` for every length -/
 example : (profileColumn [.int 1, .int 2, .int 1]).2.2 = "" := by decide
 example : (profileColumn [.int 1, .int 2, .int 3]).2.2 = "This attribute can be used as a key attribute." := by decide
+example : (profileColumn [.int 1, .flt 1, .int 3]).2.2 = "" := by decide
 
 end SSJ.Props.C17
